@@ -186,6 +186,12 @@ impl World {
                 nuke(&p);
                 symlink(os(&self.subst(target)), &p)
             },
+            MutOp::FdLimit(spare) => {
+                if crate::fdlimit::limit(*spare) { Ok(()) } else { Err(std::io::Error::other("setrlimit")) }
+            },
+            MutOp::FdRestore => {
+                if crate::fdlimit::restore() { Ok(()) } else { Err(std::io::Error::other("setrlimit")) }
+            },
         })();
         match res {
             Ok(()) => "ok".to_string(),
